@@ -52,7 +52,7 @@ REQUIRED = [
     "on_disconnection_rule_checked",
     "udp_fresh_generator_checked",
 ]
-EXHAUSTIVE = {"quick": True, "thorough": True}
+EXHAUSTIVE = {"quick": True, "thorough": False}
 WATCHDOG = {"quick": 1200, "thorough": 7200}
 
 EXC_NAMES = ["ValueError", "KeyError", "Custom", "ExceptionGroup", "NestedGroupWithClientClosed", "ConnectionResetError", "BrokenPipeError", "ClientClosedError", "TimeoutError", "ReRaisedParseError", "RuntimeErrorCrashed"]
@@ -275,8 +275,11 @@ class TLSConn(PlainConn):
         return "eof" if r in ("clean", "ragged") else r
 
 
-def tcp_scenario(tls: bool, exc: str | None, position: str | None, setup_fault: str | None) -> dict:
-    res: dict[str, Any] = {"problems": [], "triggered": False}
+def tcp_scenario(tls: bool, exc: str | None, position: str | None, setup_fault: str | None, var: dict | None = None) -> dict:
+    """var (thorough tier): {"faulty_delay": s, "n_healthy": n, "n_faulty": m, "nap_every": k}: when the failing clients join relative to
+    the healthy traffic, how many of each, how the healthy clients pace themselves"""
+    var = var or {"faulty_delay": 0.05, "n_healthy": 3, "n_faulty": 1, "nap_every": 5}
+    res: dict[str, Any] = {"problems": [], "triggered": False, "faulty_ports": []}
     log: list = []
     records: list = []
 
@@ -310,7 +313,7 @@ def tcp_scenario(tls: bool, exc: str | None, position: str | None, setup_fault: 
                         res["problems"].append(f"healthy client {i}: exchange {n} answered {r!r}")
                         return
                     exchanges["n"] += 1
-                    if n % 5 == 0:
+                    if n % var["nap_every"] == 0:
                         await asyncio.sleep(0.1)
             finally:
                 c.close()
@@ -322,7 +325,8 @@ def tcp_scenario(tls: bool, exc: str | None, position: str | None, setup_fault: 
             port = s.getsockname()[1]
             faulty_ports.add(port)
             res["faulty_port"] = port
-            await asyncio.sleep(0.05)
+            res["faulty_ports"].append(port)
+            await asyncio.sleep(var["faulty_delay"])
             lp = asyncio.get_running_loop()
             await lp.sock_connect(s, addr)
             if setup_fault is not None:
@@ -381,7 +385,7 @@ def tcp_scenario(tls: bool, exc: str | None, position: str | None, setup_fault: 
             finally:
                 c.close()
 
-        tasks = [asyncio.ensure_future(healthy(i)) for i in range(3)] + [asyncio.ensure_future(faulty())]
+        tasks = [asyncio.ensure_future(healthy(i)) for i in range(var["n_healthy"])] + [asyncio.ensure_future(faulty()) for _ in range(var["n_faulty"])]
         done, pending = await asyncio.wait(tasks, timeout=120)
         if pending:
             res["problems"].append(f"{len(pending)} client tasks still pending after 120 virtual seconds")
@@ -419,12 +423,13 @@ def tcp_scenario(tls: bool, exc: str | None, position: str | None, setup_fault: 
         res["problems"].append(f"deadlock / starvation: {exc}")
     res["log"] = log
     res["records"] = records[-6:]
-    port = res.get("faulty_port")
     if any(e[0] == "raise" for e in log):
         res["triggered"] = True
     # on_disconnection ran iff on_connection completed
-    if port is not None and setup_fault is None:
-        done = any(e == ("on_connection_done", port) for e in log) or (position == "on_connection_gen_after" and any(e[0] == "raise" and e[1] == "on_connection_gen_after" for e in log) and False)
+    for port in res["faulty_ports"]:
+        if setup_fault is not None:
+            break
+        done = any(e == ("on_connection_done", port) for e in log)
         nd = sum(1 for e in log if e == ("on_disconnection", port))
         res["ondisc_rule"] = (done, nd)
         if nd != (1 if done else 0):
@@ -602,6 +607,14 @@ def plan(tier: str, seed: int) -> list[dict]:
         for p in UDP_POSITIONS:
             items.append({"kind": "udp", "exc": e, "pos": p})
     rng = random.Random(seed)
+    if tier == "thorough":
+        # the same matrix under seeded variations of who joins when and how many clients of each kind there are
+        base = list(items)
+        for rep in range(20):
+            for it in base:
+                if it["kind"] == "udp":
+                    continue
+                items.append({**it, "var": {"faulty_delay": rng.choice([0, 0.05, 0.1, 0.3, 0.7, 1.2]), "n_healthy": rng.choice([1, 3, 5]), "n_faulty": rng.choice([1, 1, 2, 3]), "nap_every": rng.choice([1, 3, 5, 50])}})
     rng.shuffle(items)
     n = 32
     return [{"seed": seed, "items": items[i::n]} for i in range(n)]
@@ -616,7 +629,7 @@ def run_shard(params: dict, ctx) -> None:
         if kind == "udp":
             res = udp_scenario(it["exc"], it["pos"])
         else:
-            res = tcp_scenario(kind == "tls", it.get("exc"), it.get("pos"), it.get("fault"))
+            res = tcp_scenario(kind == "tls", it.get("exc"), it.get("pos"), it.get("fault"), it.get("var"))
         ctx.case(res["triggered"], repr(it))
         if res["triggered"]:
             ctx.count("setup_faults" if "fault" in it else "faults_triggered")
